@@ -30,7 +30,7 @@ def run(chk):
         rule_include(chk, pc)
     rule_args(chk)
     expanded = rule_expand_eval(chk)
-    rule_once(chk)
+    rule_once(chk, rule_loader_eval(chk))
     rule_defines(chk)
     import c08
     c08.rule_macro.__globals__["__name__"]
@@ -599,9 +599,99 @@ def rule_redef_eval(chk, pc):
     return True
 
 
-def rule_once(chk):
+def rule_loader_eval(chk):
+    """FileLoader read as a state machine: load / mark_as_pragma_once are walked by the reader on a four-file include
+    handler (a diamond: main includes a.h and b.h, both include common.h, which says #pragma once; a.h is included twice).
+    The include handler is a stand-in that records what it is asked; the SourceManager is rssl's own, walked too."""
+    import interp as I
+    f = chk.facts
+    ld = f.fn("load", PP, self_ty="FileLoader")
+    mk = f.fn("mark_as_pragma_once", PP)
+    smnew = f.fn("new", "rssl_text", self_ty="SourceManager")
+    if not (ld and mk and smnew):
+        return False
+    opt = lambda v: I.Enum("Option", "None") if v is None else I.Enum("Option", "Some", {"0": v})
+    fid = lambda i: I.Enum("FileId", None, {"0": i})
+    FILES = {"main": "M", "a.h": "AAA", "b.h": "BB", "common.h": "CCCC"}
+    asked = []
+
+    def deref(v):
+        return v.get() if isinstance(v, I.Ref) else v
+
+    def handler(a):
+        name, parent = deref(a[1]), deref(a[2])
+        asked.append((name, parent))
+        if name not in FILES:
+            return I.Enum("Result", "Err", {"0": I.Enum("IncludeError", "FileNotFound")})
+        return I.Enum("Result", "Ok", {"0": I.Enum("FileData", None, {"real_name": "real/" + name, "contents": FILES[name]})})
+    ip = I.Interp(f, max_depth=8, extern={"IncludeHandler::load": handler})
+    try:
+        sm = ip.apply(smnew, [])
+        fl = I.Enum("FileLoader", None, {"file_name_remap": I.HMap(), "pragma_once_files": I.HSet(), "source_manager": sm, "include_handler": I.Opaque("include handler")})
+
+        def load(name, parent):
+            r = ip.apply(ld, [fl, name, opt(None if parent is None else fid(parent))])
+            if isinstance(r, I.Enum) and r.variant == "Ok":
+                x = r.fields["0"]
+                return (x.fields["file_id"].fields["0"], x.fields["contents"])
+            return "Err"
+        steps = []
+        m = load("main", None)
+        steps.append(("main", m))
+        a = load("a.h", m[0])
+        steps.append(("a.h from main", a))
+        c1 = load("common.h", a[0])
+        steps.append(("common.h from a.h", c1))
+        ip.apply(mk, [fl, fid(c1[0])])
+        b = load("b.h", m[0])
+        steps.append(("b.h from main", b))
+        c2 = load("common.h", b[0])
+        steps.append(("common.h from b.h (after #pragma once)", c2))
+        a2 = load("a.h", m[0])
+        steps.append(("a.h from main again", a2))
+        miss = load("nope.h", m[0])
+        c3 = load("common.h", m[0])
+        steps.append(("common.h from main (after a failed include)", c3))
+    except (I.Unknown, TypeError, KeyError, IndexError, AttributeError) as e:
+        if "panicking" in str(e):
+            chk.ob("C12.loader/total", False, "FileLoader aborts on the diamond include model (%s)" % str(e)[:80], where(ld))
+            return True
+        chk.note("C12.loader: FileLoader::load is not readable (%s); the shape rules C12.once decide" % str(e)[:80])
+        return False
+    ids = {}
+    bad_id = bad_txt = None
+    for what, (i_, txt) in steps:
+        nm = what.split()[0]
+        if nm in ids and ids[nm] != i_ and not bad_id:
+            bad_id = "%s: the file gets id %d, it was registered as id %d before - #pragma once is recorded per id, so the file can be pasted twice" % (what, i_, ids[nm])
+        ids.setdefault(nm, i_)
+    if len(set(ids.values())) != len(ids):
+        bad_id = bad_id or "two different files share a file id: %s" % ids
+    want = {"main": "M", "a.h from main": "AAA", "common.h from a.h": "CCCC", "b.h from main": "BB", "common.h from b.h (after #pragma once)": "", "a.h from main again": "AAA",
+            "common.h from main (after a failed include)": ""}
+    for what, (i_, txt) in steps:
+        if txt != want[what] and not bad_txt:
+            bad_txt = "%s contributes %r, must be %r" % (what, txt, want[what])
+    names = [n_ for n_, _p in asked]
+    dup = sorted({n_ for n_ in names if names.count(n_) > 1})
+    parents = dict(asked)
+    bad_par = None
+    for n_, p_ in (("a.h", "real/main"), ("common.h", "real/a.h"), ("b.h", "real/main"), ("main", "")):
+        if parents.get(n_) != p_:
+            bad_par = "the include handler is asked for %s relative to %r, the including file is %r" % (n_, parents.get(n_), p_)
+            break
+    chk.ob("C12.loader/one-id-per-name", bad_id is None and not dup, bad_id or ("the include handler is asked for %s more than once" % dup if dup else "each file is loaded once and keeps its id"), where(ld))
+    chk.ob("C12.loader/contents", bad_txt is None, bad_txt or "every include contributes the file's text; a #pragma once file contributes nothing the second time, from whichever file it is reached", where(ld))
+    chk.ob("C12.loader/parent", bad_par is None, bad_par or "the handler is told the including file", where(ld))
+    chk.ob("C12.loader/missing", miss == "Err", "a missing file is an error" if miss == "Err" else "including a file the handler does not have gives %r" % (miss,), where(ld))
+    return True
+
+
+def rule_once(chk, loader_evaluated=False):
     f = chk.facts
     ld = chk.anchor("C12.anchor/FileLoader::load", f.fn("load", PP, self_ty="FileLoader"), "FileLoader::load")
+    if loader_evaluated:
+        ld = None           # (the two shape rules about load are the fallback of C12.loader)
     if ld:
         ok = False
         for n in F.exprs(ld["thir"], "If"):
